@@ -9,8 +9,10 @@ import (
 	"encoding/hex"
 	"fmt"
 	"io"
+	"runtime"
 	"sort"
 	"strconv"
+	"sync"
 	"testing"
 	"unicode/utf8"
 
@@ -26,7 +28,8 @@ type c04Case struct {
 	Payload []byte `json:"payload"` // what follows the headers
 	Cid     string `json:"cid"`
 	OpID    uint64 `json:"opid"`
-	Big     bool   `json:"big"` // one value blown up to ~70 KB
+	Big     bool   `json:"big"`   // one value blown up to ~70 KB
+	Chunk   int    `json:"chunk"` // the stream hands out at most this many bytes per Read (0 = everything)
 }
 
 var reserved = map[string]bool{"_cid": true, "_opid": true, "_timeout": true}
@@ -91,6 +94,7 @@ func genC04(utf8Only bool) func(t *rapid.T) c04Case {
 		c.Cid = rapid.StringMatching(`[a-zA-Z0-9\-]{0,20}`).Draw(t, "cid")
 		c.OpID = rapid.Uint64().Draw(t, "opid")
 		c.Big = rapid.IntRange(0, 60).Draw(t, "big") == 0 && len(c.Pairs) > 0
+		c.Chunk = rapid.SampledFrom([]int{0, 0, 1, 2, 3, 7, 64, 4096}).Draw(t, "chunk")
 		return c
 	}
 }
@@ -142,6 +146,9 @@ func classifyC04(c c04Case) ev.Class {
 	}
 	if len(c.Payload) > 0 {
 		labels = append(labels, "payload")
+	}
+	if c.Chunk > 0 {
+		labels = append(labels, "chunked-stream")
 	}
 	labels = uniq(labels)
 	key := fmt.Sprintf("%x|%x|%v", canonPairs(c.pairs()), c.Payload, c.Big)
@@ -196,6 +203,28 @@ func trunc(s string, n int) string {
 }
 
 var pf = frugal.NewFProtocolFactory(thrift.NewTBinaryProtocolFactoryConf(nil))
+
+// chunkT is a read-only TTransport that delivers its bytes in pieces of at most
+// `chunk` bytes per Read, like a socket or a buffered stream does.
+type chunkT struct {
+	*thrift.TMemoryBuffer
+	chunk int
+	yield bool
+}
+
+func (c *chunkT) Read(p []byte) (int, error) {
+	if c.chunk > 0 && len(p) > c.chunk {
+		p = p[:c.chunk]
+	}
+	if c.yield {
+		runtime.Gosched()
+	}
+	return c.TMemoryBuffer.Read(p)
+}
+
+func streamOf(b []byte, chunk int) *chunkT {
+	return &chunkT{TMemoryBuffer: &thrift.TMemoryBuffer{Buffer: bytes.NewBuffer(append([]byte{}, b...))}, chunk: chunk}
+}
 
 // checkC04Go: oracles (1)-(3) of DESIGN.md §C04, Go only.
 func checkC04Go(c c04Case) *ev.Failure {
@@ -266,7 +295,7 @@ func checkC04Go(c c04Case) *ev.Failure {
 	}
 	stream := append(refEncodeHeaders(wirePairs), c.Payload...)
 	{
-		buf := &thrift.TMemoryBuffer{Buffer: bytes.NewBuffer(append([]byte{}, stream...))}
+		buf := streamOf(stream, c.Chunk)
 		ctx, err := pf.GetProtocol(buf).ReadRequestHeader()
 		if err != nil {
 			return ev.Failf("read-request-error", "ReadRequestHeader rejects well-formed headers: %v", err)
@@ -297,7 +326,7 @@ func checkC04Go(c c04Case) *ev.Failure {
 		}
 	}
 	{
-		buf := &thrift.TMemoryBuffer{Buffer: bytes.NewBuffer(append([]byte{}, stream...))}
+		buf := streamOf(stream, c.Chunk)
 		ctx := frugal.NewFContext("other")
 		ownOp, _ := ctx.RequestHeader("_opid")
 		if err := pf.GetProtocol(buf).ReadResponseHeader(ctx); err != nil {
@@ -402,6 +431,82 @@ var c04GoProp = ev.Prop("c04.go", genC04(false), checkC04Go, classifyC04, sample
 func TestC04Go(t *testing.T) {
 	rapid.Check(t, c04GoProp)
 }
+
+// ---- concurrent decoding: independent streams decoded at the same time must not disturb each other
+
+type c04ConcCase struct {
+	Streams []c04Case `json:"streams"`
+	Rounds  int       `json:"rounds"`
+}
+
+func genC04Conc(t *rapid.T) c04ConcCase {
+	n := rapid.IntRange(2, 8).Draw(t, "goroutines")
+	c := c04ConcCase{Rounds: rapid.IntRange(5, 60).Draw(t, "rounds")}
+	g := genC04(false)
+	for i := 0; i < n; i++ {
+		s := g(t)
+		s.Big = false
+		s.Chunk = rapid.SampledFrom([]int{1, 2, 3, 5}).Draw(t, "chunk")
+		c.Streams = append(c.Streams, s)
+	}
+	return c
+}
+
+func checkC04Conc(c c04ConcCase) *ev.Failure {
+	fails := make([]*ev.Failure, len(c.Streams))
+	var wg sync.WaitGroup
+	start := make(chan struct{})
+	for i := range c.Streams {
+		wg.Add(1)
+		go func(i int) {
+			defer wg.Done()
+			s := c.Streams[i]
+			pairs := append(append([]KV{}, s.Pairs...), KV{[]byte("_opid"), []byte(strconv.Itoa(1000 + i))})
+			want := pairsToMap(pairs)
+			stream := append(refEncodeHeaders(pairs), s.Payload...)
+			<-start
+			for r := 0; r < c.Rounds && fails[i] == nil; r++ {
+				tr := streamOf(stream, s.Chunk)
+				tr.yield = true
+				var got map[string]string
+				var err error
+				if p := catch(func() { got, err = frugal.VerifReadHeader(tr) }); p != "" {
+					fails[i] = ev.Failf("concurrent-decode-panic", "goroutine %d round %d: %s", i, r, p)
+					return
+				}
+				if err != nil {
+					fails[i] = ev.Failf("concurrent-decode-error", "goroutine %d round %d: a well-formed stream was rejected while %d other streams were being decoded: %v", i, r, len(c.Streams)-1, err)
+					return
+				}
+				if !mapsEqual(got, want) {
+					fails[i] = ev.Failf("concurrent-decode-mismatch", "goroutine %d round %d: decoded %v, want %v (other streams decoded concurrently)", i, r, got, want)
+					return
+				}
+				rest, _ := io.ReadAll(tr)
+				if !bytes.Equal(rest, s.Payload) {
+					fails[i] = ev.Failf("concurrent-decode-payload", "goroutine %d round %d: payload position shifted", i, r)
+					return
+				}
+			}
+		}(i)
+	}
+	close(start)
+	wg.Wait()
+	for _, f := range fails {
+		if f != nil {
+			return f
+		}
+	}
+	return nil
+}
+
+var c04ConcProp = ev.Prop("c04.concurrent", genC04Conc, checkC04Conc, func(c c04ConcCase) ev.Class {
+	return ev.Class{NonTrivial: len(c.Streams) >= 2, Key: fmt.Sprintf("%+v", c), Labels: []string{"goroutines=" + bucket(len(c.Streams))}}
+}, func(c c04ConcCase) interface{} {
+	return map[string]interface{}{"goroutines": len(c.Streams), "rounds": c.Rounds}
+})
+
+func TestC04Concurrent(t *testing.T) { rapid.Check(t, c04ConcProp) }
 
 // ---- differential leg with the Python runtime codec and contrib/frame_parser.py
 
